@@ -4,9 +4,11 @@ import json
 
 from harness.core import pool, tb
 
-PROOF_MODULE = "OdeVerif.Proofs.C11"
+PROOF_MODULE = ["OdeVerif.Proofs.C11", "OdeVerif.Proofs.RefineSingularity"]
+GENERATED = ["PySingularity"]
 THEOREMS = ["OdeVerif.C11.negBases_iff_sub", "OdeVerif.C11.dedup_no_loss", "OdeVerif.C11.detect_sound", "OdeVerif.C11.detect_complete",
-            "OdeVerif.C11.detect_complete_rel", "OdeVerif.C11.detect_nodup"]
+            "OdeVerif.C11.detect_complete_rel", "OdeVerif.C11.detect_nodup",
+            "OdeVerif.Refine.preorder_negBases", "OdeVerif.Refine.generateSingularityConditions_refines", "OdeVerif.Refine.flattenConditions_refines", "OdeVerif.Refine.filterValidConditions_refines", "OdeVerif.Refine.findSingularities_refines"]
 LEVEL = "proof"
 
 
@@ -189,9 +191,79 @@ def case_detect(case):
         if canon(calls[0]["conditions"]) != canon(real):
             problems.append({"what": "a second, identical find_singularities(P, A) call in the same process reports different conditions",
                              "first": canon(calls[0]["conditions"]), "second": canon(real)})
+    # completeness, independently of any family: every negative power (integer or not) in the full propagator matrix is a
+    # denominator; for each of its parameter symbols, the equalities that make it vanish while the system matrix stays defined
+    # (under every direction tried) must be covered by a reported condition that zeroes that denominator
+    try:
+        problems += _own_scan(P_full, A_full, reported_all, case)
+    except Exception as ex:
+        problems.append({"what": "harness-error in the independent denominator scan", "error": type(ex).__name__ + ": " + str(ex)[:120]})
     reported_pairs = sorted(sorted([str(k), str(v)]) for c in reported_all for k, v in c.items())
     return {"payload": {"entries": entries, "solve": table, "undefined_A": undefined}, "real_ids": real_ids, "reported": [json.loads(conds[i]) for i in real_ids],
             "reported_pairs": reported_pairs, "problems": problems, "n_solve_calls": len(solves), "structure": structure}
+
+
+def _undefined(M, cond):
+    import sympy
+    for e in sympy.flatten(M):
+        v = e
+        try:
+            for k, w in cond.items():
+                v = v.subs(k, w)
+            v = sympy.simplify(v)
+        except Exception:
+            return True
+        if v.has(sympy.zoo, sympy.nan, sympy.oo, -sympy.oo):
+            return True
+    return False
+
+
+def _own_scan(P_full, A_full, reported_all, case):
+    import sympy
+    hs = sympy.Symbol(case["indict"].get("options", {}).get("output_timestep_symbol", "__h"))
+    bases = []
+    for e in sympy.flatten(P_full):
+        for sub in sympy.preorder_traversal(e):
+            if sub.is_Pow and sub.args[1].is_number and sub.args[1].is_negative and sub.args[0].free_symbols - {hs}:
+                if sub.args[0] not in bases and hs not in sub.args[0].free_symbols:
+                    bases.append(sub.args[0])
+    out = []
+    for b in bases[:12]:
+        conds = []
+        for sym in sorted(b.free_symbols, key=str):
+            try:
+                sols = sympy.solve(b, sym)
+            except Exception:
+                continue
+            for sol in sols:
+                if sol.free_symbols and not sol.has(sympy.I):        # an equality between parameters (not `k = 0`: see below), real
+                    conds.append({sym: sol})
+                elif sol == 0:
+                    conds.append({sym: sol})
+        if not conds or any(_undefined(A_full, c) for c in conds):
+            continue
+        covered = False
+        for c in reported_all:
+            v = b
+            for k, w in c.items():
+                v = v.subs(k, w)
+            try:
+                if sympy.simplify(v) == 0:
+                    covered = True
+                    break
+            except Exception:
+                pass
+        if not covered:
+            out.append({"what": "a propagator denominator vanishes under a parameter equality that leaves the system matrix defined, and no reported condition covers it",
+                        "denominator": str(b), "equalities": [{str(k): str(v) for k, v in c.items()} for c in conds][:3]})
+    return out
+
+
+OSCILLATORS = [
+    {"indict": {"dynamics": [{"expression": "x'' = -k*x", "initial_values": {"x": "1", "x'": "0"}}]}, "expected": [], "form": None, "n": 2},
+    {"indict": {"dynamics": [{"expression": "x'' = -k*x - d*x'", "initial_values": {"x": "1", "x'": "0"}}]}, "expected": [], "form": None, "n": 2},
+    {"indict": {"dynamics": [{"expression": "u' = -a*u + v", "initial_value": "1"}, {"expression": "v' = -k*u - a*v", "initial_value": "0"}]}, "expected": [], "form": None, "n": 2},
+]
 
 
 def run(ctx, driver):
@@ -203,6 +275,7 @@ def run(ctx, driver):
     rng = ctx.rng("family")
     cases = [c["case"] for c in ctx.corpus() if "case" in c]
     cases += [family(rng) for _ in range(ctx.n(22, 250))]
+    cases += [json.loads(json.dumps(o)) for o in OSCILLATORS]      # denominators under a square root (non-integer negative powers)
     results = pool.run_cases("harness.props.c11", "case_detect", cases, timeout=ctx.n(100, 400), init="_init_worker", deadline=ctx.deadline())
     ops = []
     for case, res in zip(cases, results):
@@ -219,13 +292,18 @@ def run(ctx, driver):
             continue
         if res.get("structure"):
             ctx.tie_break("corr:singularities-call-structure", {"case": case["indict"], "detail": res["structure"]})
-        ctx.count("form:" + case.get("form", "?"))
+        ctx.count("form:" + str(case.get("form") or "other"))
         ctx.count("n:%s" % case.get("n"))
         if case["expected"]:
             ctx.note_nontrivial(json.dumps(case["indict"], sort_keys=True))
         sig = {"form": case.get("form")}
         for p in res["problems"]:
-            ctx.fail("reported-condition-not-genuine", case["indict"], {"problem": p, "signature": dict(sig, what=p["what"])})
+            kind = "singular-equality-missed" if p["what"].startswith(("a propagator denominator vanishes", "a second, identical")) else \
+                ("harness-error" if p["what"].startswith("harness-error") else "reported-condition-not-genuine")
+            if kind == "harness-error":
+                ctx.tie_break("harness-error:own-scan", {"case": case["indict"], "problem": p})
+            else:
+                ctx.fail(kind, case["indict"], {"problem": p, "signature": dict(sig, what=p["what"])})
             break
         rep = {tuple(p) for p in res["reported_pairs"]}
         if "expected" in case and case.get("form") is not None:
